@@ -17,6 +17,7 @@
 (*   Observe    SuRecord.Observer                                            *)
 (* Rules are the fixed pure functions                                        *)
 (*   c = a + b        d = c * 2        e = (a is 0) ? d : b                  *)
+(*   and optionally g = a + 1, h = a + 2, k = a + 3 (constant Extra)         *)
 (* (e has data dependent inputs).  A missing member reads as "" (the record  *)
 (* default), written EMPTY here; "" counts as 0 in arithmetic.               *)
 (*                                                                           *)
@@ -29,11 +30,14 @@ CONSTANTS
     Recs,       \* record ids, e.g. {1, 2}; record 1 exists initially
     Obs,        \* observer ids
     Vals,       \* values that Set may store, e.g. 0..2
+    Extra,      \* additional rule fields, subset of {"g", "h", "k"}: g = a + 1, h = a + 2, k = a + 3
+                \* (many rules reading the same field: long dependents lists)
     Dev         \* "none" | "notransitive" | "copyshare" | "nodep"  (self-test deviations)
 
 EMPTY == -1                          \* the empty string (record default value)
 Plain == {"a", "b"}
-RuleFields == {"c", "d", "e"}
+RuleFields == {"c", "d", "e"} \cup Extra
+Offset(f) == CASE f = "g" -> 1 [] f = "h" -> 2 [] f = "k" -> 3
 Fields == Plain \cup RuleFields
 
 Num(x) == IF x = EMPTY THEN 0 ELSE x
@@ -87,6 +91,8 @@ RunRule(s, f) ==
                         \* deviation "nodep": the read in the chosen branch records no dependency
                         fr == IF Dev = "nodep" THEN "" ELSE "e"
                     IN IF ga.v = 0 THEN GetOp(ga.s, "d", fr) ELSE GetOp(ga.s, "b", fr)
+      [] f \in Extra -> LET ga == GetOp(s, "a", f)
+                        IN [s |-> ga.s, v |-> Num(ga.v) + Offset(f)]
 
 ----------------------------------------------------------------------------
 (* invalidation: SuRecord.invalidate is a depth first walk over dependents that   *)
@@ -198,6 +204,7 @@ Cur(s, f) ==
     ELSE IF f = "c" THEN Num(Cur(s, "a")) + Num(Cur(s, "b"))
     ELSE IF f = "d" THEN Num(Cur(s, "c")) * 2
     ELSE IF f = "e" THEN (IF Cur(s, "a") = 0 THEN Cur(s, "d") ELSE Cur(s, "b"))
+    ELSE IF f \in Extra THEN Num(Cur(s, "a")) + Offset(f)
     ELSE IF f \in s.has THEN s.val[f] ELSE EMPTY
 
 \* Get of any field of any record returns the value computed from current field values
